@@ -8,6 +8,7 @@ from vf.runner import CaseTimeout
 from vf.semirings import Poly
 from vf.spaces import strings_upto
 
+from genlm.grammar.cfg import CFG
 from genlm.grammar.chart import Chart
 from genlm.grammar.semiring import Boolean, Float, MaxTimes, Real
 
@@ -72,6 +73,8 @@ def plan(tier, seed):
         cases += [dict(c, mode="free") for c in b5 if len(c["rules"]) == 4]
         nstates += s5 - nstates_base
         ntrans += t5 - ntrans_base
+    for k in range(len(CRITICAL)):
+        cases.append({"name": "critical", "rules": [], "mode": "critical", "family": k})
     for c in base:
         cases.append(dict(c, mode="num"))
         if len(c["rules"]) <= p["sched_depth"] or c["name"].startswith("sharp"):
@@ -407,5 +410,48 @@ def run_sched(case):
     }
 
 
+# Grammars at the boundary of convergence (closed-form totals): the fixed point of X = p X^2 + (1-p) at p = 1/2 is 1
+# and is approached like 1/n, so the evaluators run into their iteration cap in the block of X and must still
+# evaluate the blocks that depend on it.
+CRITICAL = [
+    ([(0.5, "X", ("X", "X")), (0.5, "X", ("a",)), (1.0, "S", ("X", "c"))], {"X": 1.0, "S": 1.0}),
+    ([(0.5, "X", ("X", "X")), (0.5, "X", ("a",)), (0.5, "Y", ("Y", "Y")), (0.5, "Y", ("b",)), (1.0, "S", ("X", "Y")), (0.25, "T", ("S", "c"))], {"X": 1.0, "Y": 1.0, "S": 1.0, "T": 0.25}),
+    ([(0.5, "S", ("S", "S")), (0.5, "S", ("a",))], {"S": 1.0}),
+]
+
+
+def run_critical(case):
+    from genlm.grammar.cfglm import locally_normalize
+
+    wr, want = CRITICAL[case["family"]]
+    V = {"a", "b", "c"}
+    fails = []
+    evals = 0
+    inp0 = {"critical_family": case["family"], "rules": [[w, h, list(b)] for w, h, b in wr]}
+
+    def mk():
+        g = CFG(Float, "S", set(V))
+        for w, h, b in wr:
+            g.add(w, h, *b)
+        return g
+
+    for name, f in (("agenda", lambda: mk().agenda()), ("naive_bottom_up", lambda: mk().naive_bottom_up())):
+        have = _call(f)
+        evals += 1
+        if isinstance(have, str) or any(abs(have[X] - v) > 2e-2 for X, v in want.items()):
+            fails.append(_fail(f"{name} on a grammar at the boundary of convergence (closed form, 2e-2)", inp0, have if isinstance(have, str) else {X: have[X] for X in want}, want))
+    ln = _call(lambda: locally_normalize(mk()))
+    evals += 1
+    if isinstance(ln, str):
+        fails.append(_fail("locally_normalize on a grammar at the boundary of convergence", inp0, ln, "grammar"))
+    else:
+        heads = {}
+        for r in ln.rules:
+            heads[r.head] = heads.get(r.head, 0) + r.w
+        if set(heads) != set(want) or any(abs(s - 1) > 5e-2 for s in heads.values()):
+            fails.append(_fail("locally_normalize: every head keeps its rules and sums to one (5e-2)", inp0, heads, {X: 1.0 for X in want}))
+    return {"evals": evals, "nontrivial": 1, "fails": fails, "counters": {"executions": evals}}
+
+
 def run_case(case):
-    return {"free": run_free, "num": run_num, "sched": run_sched}[case["mode"]](case)
+    return {"free": run_free, "num": run_num, "sched": run_sched, "critical": run_critical}[case["mode"]](case)
